@@ -1,7 +1,7 @@
 from vfeng import Unit, Harness
 PROPERTY = 'C01'
 RB = ['_ZSt18_Rb_tree_incrementPKSt18_Rb_tree_node_base', '_ZSt18_Rb_tree_incrementPSt18_Rb_tree_node_base', '_ZSt18_Rb_tree_decrementPSt18_Rb_tree_node_base', '_ZSt18_Rb_tree_decrementPKSt18_Rb_tree_node_base', '_ZSt29_Rb_tree_insert_and_rebalancebPSt18_Rb_tree_node_baseS0_RS_', '_ZNSt8_Rb_treeIiSt4pairIKidESt10_Select1stIS2_ESt4lessIiESaIS2_EE8_M_eraseEPSt13_Rb_tree_nodeIS2_E']
-NAMES = ['and', 'or', 'min', 'max', 'abs', 'ifthen', 'not']
+NAMES = ['and', 'or', 'min', 'max', 'abs', 'ifthen', 'not', 'count']
 def units(tier):
     u = Unit('redef', 'wrap.cc', 'harness.c', externs=RB + ['vf_rc_lin', 'vf_rc_ind', 'vf_rc_addvars', 'vf_rc_defvar', '_ZN3fmt14BasicFormatterIcNS_12ArgFormatterIcEEE6formatENS_15BasicCStringRefIcEE'], extra_repo_cc=['src/std_constr.cc'], ll2c_args=['--inline-mem', '1024'])
     u.stub_undefined = True; u.tool_c = ['vf_rbtree.c']; u.tv = False
@@ -11,11 +11,11 @@ def harnesses(tier):
          'points: integers in [-1000, 1000] (binary for logical arguments, results and auxiliary flags): with the +-1 coefficients these redefinitions use, constraint evaluation is exact; auxiliary flags universally quantified for soundness, given by a witness (arg attaining min/max, sign of x) for completeness',
          'context semantics: positive r <= f, negative r >= f, mixed r == f (flat/context.h)']
     hs = []
-    for w in range(7):
-        for n in ((2, 3) if w < 4 else (1,) if w in (4, 6) else (3,)):
+    for w in range(8):
+        for n in ((2, 3) if w < 4 or w == 7 else (1,) if w in (4, 6) else (3,)):
             if tier == 'quick' and n == 3 and 2 <= w < 4: continue
             if tier == 'quick' and w < 2: continue      # and / or build their rows with std::vector inserts of data-dependent size: encoding exceeds 16 GB (thorough tier, 40 GB)
-            for ctx in (1, 2, 3):
+            for ctx in ((3,) if w == 7 else (1, 2, 3)):      # count converts identically in every context
                 h = Harness('h_reform', 'redef', unwind=10, timeout=300 if tier == 'quick' else 1800, mem_gb=16 if w >= 2 else 40, defines=['WHICH=%d' % w, 'NARGS=%d' % n, 'CTX=%d' % ctx], tv_cases=0, flags=['--object-bits', '10'], assumptions=A,
                             bounds='%s over %d argument(s), context %s; every integer point in [-1000,1000]^k, every auxiliary assignment' % (NAMES[w], n, {1: 'positive', 2: 'negative', 3: 'mixed'}[ctx]),
                             claims='MIP redefinition of %s: the emitted linear / indicator constraints hold at a point (for some auxiliary values) iff the original functional constraint holds there in its context' % NAMES[w])
